@@ -124,3 +124,60 @@ func globalsNotFinal(pi *PkgInfo) []string {
 	}
 	return bad
 }
+
+// finalIfaceType returns the concrete dynamic type of an interface-typed package variable that is
+// assigned exactly once (in the package initialiser, from a MakeInterface) and whose address is
+// used for nothing but loads anywhere in its package; nil otherwise.
+func (u *Universe) finalIfaceType(g *ssa.Global) types.Type {
+	if t, ok := u.finalIface[g]; ok {
+		return t
+	}
+	var result types.Type
+	defer func() { u.finalIface[g] = result }()
+	if g.Pkg == nil {
+		return nil
+	}
+	var concrete types.Type
+	stores := 0
+	for fn := range ssautil.AllFunctions(g.Pkg.Prog) {
+		f := fn
+		for f.Parent() != nil {
+			f = f.Parent()
+		}
+		if f.Pkg != g.Pkg {
+			continue
+		}
+		for _, b := range fn.Blocks {
+			for _, ins := range b.Instrs {
+				for _, op := range ins.Operands(nil) {
+					if *op != ssa.Value(g) {
+						continue
+					}
+					switch i := ins.(type) {
+					case *ssa.UnOp:
+						// load: fine
+					case *ssa.Store:
+						if i.Addr != ssa.Value(g) {
+							return nil // address stored somewhere
+						}
+						stores++
+						if !(fn.Name() == "init" && fn.Synthetic != "") {
+							return nil
+						}
+						mi, ok := i.Val.(*ssa.MakeInterface)
+						if !ok {
+							return nil
+						}
+						concrete = mi.X.Type()
+					default:
+						return nil
+					}
+				}
+			}
+		}
+	}
+	if stores == 1 {
+		result = concrete
+	}
+	return result
+}
